@@ -202,6 +202,8 @@ pub fn blocks(thorough: bool) -> Vec<Block> {
         b.push(Block::new(u_prefix_suffix(), vec![Cfg::new(D), Cfg::new(W), Cfg::new(W | D), Cfg::new(D | R)], "d, w, w+d, d+r"));
         b.push(Block::new(Universe::new("U_tok{\\d,1,\\,d}", &["\\d", "1", "\\", "d"], 3, 2, false), vec![Cfg::new(D | R), Cfg::new(D | W | R), Cfg::new(D)], "d+r, d+w+r, d"));
         b.push(Block::new(Universe::new("U_adv(A_gcm)", A_GCM, 3, 1, false), vec![Cfg::new(0), Cfg::new(R), Cfg::new(NW)], "{}, r, W"));
+        b.push(Block::new(u_kind_pairs(2, 2, false), vec![Cfg::new(0)], "{}"));
+        b.push(Block::new(u_runs(), five.clone(), "{}, r, d+w, r+d, i"));
     } else {
         b.push(Block::new(Universe::new("U_adv(A_cons)", A_CONS, 1, 4, false), vec![Cfg::new(0), Cfg::new(I)], "{}, i"));
         b.push(Block::new(Universe::new("U_abc3{a,b,c}", &["a", "b", "c"], 3, 4, false), vec![Cfg::new(0), Cfg::new(R)], "{}, r"));
@@ -216,6 +218,9 @@ pub fn blocks(thorough: bool) -> Vec<Block> {
         b.push(Block::new(Universe::new("U_ab4{a,b}", &["a", "b"], 4, 4, true), vec![Cfg::new(0), Cfg::new(R)], "{}, r"));
         b.push(Block::new(Universe::new("U_adv(A_gc)", A_GC, 2, 2, true), five.clone(), "{}, r, d+w, r+d, i"));
         b.push(Block::new(Universe::new("U_adv(A_case)", A_CASE, 2, 2, true), vec![Cfg::new(I), Cfg::new(I | R)], "i, i+r"));
+        b.push(Block::new(u_kind_pairs(2, 3, false), vec![Cfg::new(0), Cfg::new(R)], "{}, r"));
+        b.push(Block::new(u_kind_pairs(3, 1, false), five.clone(), "{}, r, d+w, r+d, i"));
+        b.push(Block::new(u_runs(), lattice_le(0, ALL_BITS & !(U | C | NA | NE), 2), "Lambda<=2 (anchored)"));
     }
     b
 }
